@@ -474,9 +474,9 @@ static void c07_plan(Rng &rng, Plan &p, uint64_t variant) {
     else if (cname == "deflate-raw") { body = z_encode(payload, -15, level, 0); ce = "deflate"; }
     else if (cname == "deflate-zlib") { body = z_encode(payload, 15, level, 0); ce = "deflate"; }
     else if (cname == "lzma") { body = lzma_alone_encode(payload, 1u << 16); ce = "lzma"; if (payload.size() > 100000) payload.resize(100000), body = lzma_alone_encode(payload, 1u << 16); }
-    else if (cname == "gzip,gzip") { body = z_encode(z_encode(payload, 31, level, 0), 31, level, 0); ce = rng.coin() ? "gzip, gzip" : "gzip,gzip"; }
-    else if (cname == "deflate,deflate") { body = z_encode(z_encode(payload, -15, level, 0), -15, level, 0); ce = "deflate, deflate"; }
-    else if (cname == "gzip,deflate") { body = z_encode(z_encode(payload, -15, level, 0), 31, level, 0); ce = rng.coin() ? "gzip, deflate" : "GZIP,x-deflate"; }
+    else if (cname == "gzip,gzip") { body = z_encode(z_encode(payload, 31, level, 0), 31, level, 0); static const char *L[] = {"gzip, gzip", "gzip,gzip", "x-gzip, gzip", "x-gzip,x-gzip", "gzip, x-gzip"}; ce = L[rng.below(5)]; }
+    else if (cname == "deflate,deflate") { body = z_encode(z_encode(payload, -15, level, 0), -15, level, 0); static const char *L[] = {"deflate, deflate", "x-deflate, deflate", "x-deflate,x-deflate"}; ce = L[rng.below(3)]; }
+    else if (cname == "gzip,deflate") { body = z_encode(z_encode(payload, -15, level, 0), 31, level, 0); { static const char *L[] = {"gzip, deflate", "GZIP,x-deflate", "x-gzip, deflate", "x-gzip,x-deflate", "X-GZIP , Deflate"}; ce = L[rng.below(5)]; } }
     else if (cname == "deflate,gzip.rfc-order") { body = z_encode(z_encode(payload, -15, level, 0), 31, level, 0); ce = "deflate, gzip"; }
     else if (cname == "gzip+deflate.two-lines") { body = z_encode(z_encode(payload, -15, level, 0), 31, level, 0); ce = std::string("gzip") + (char) 1 + "deflate"; }   // split into two header lines below
     else if (cname == "gzip-labelled-deflate") { body = z_encode(payload, 31, level, 0); ce = "deflate"; }
@@ -1479,7 +1479,7 @@ static std::string recase(Rng &r, const std::string &s) { std::string o = s; int
 
 static const char *C11_TRIGGERS[] = {"te_and_cl", "two_cl_same", "two_cl_diff", "folded_cl", "chunked_http10", "cl_empty", "cl_nondigit", "cl_overflow", "te_unsupported",
                                      "host_differs", "port_differs", "host_missing_11", "hosth_invalid_char", "hosth_empty_label", "hosth_bad_port", "hostu_invalid_char", "hostu_bad_port",
-                                     "hosth_ipv6_unclosed", "te_and_cl_te_last", "hosth_empty", "hosth_empty_abs_target"};
+                                     "hosth_ipv6_unclosed", "te_and_cl_te_last", "hosth_empty", "hosth_empty_abs_target", "te_list_and_cl", "te_two_lines_and_cl"};
 static const int C11_NTRIG = (int) (sizeof C11_TRIGGERS / sizeof *C11_TRIGGERS);
 
 static void c11_plan(Rng &rng, Plan &p, uint64_t variant) {
@@ -1510,6 +1510,18 @@ static void c11_plan(Rng &rng, Plan &p, uint64_t variant) {
     if (tname == "te_and_cl" || tname == "te_and_cl_te_last") {
         chunked_body(); HeaderSpec te = H("Transfer-Encoding", recase(rng, "chunked")), cl = H("Content-Length", strfmt("%d", (int) rng.range(0, 500)));
         if (tname == "te_and_cl") { add.push_back(te); add.push_back(cl); } else { add.push_back(cl); add.push_back(te); }
+        must = FL_SMUGGLING; te_expect = 3;
+    } else if (tname == "te_list_and_cl" || tname == "te_two_lines_and_cl") {
+        // chunked as the last element of a list (or of two Transfer-Encoding lines, which are joined): still chunked framing, and with
+        // a Content-Length next to it still a smuggling attempt
+        static const char *FIRST[] = {"compress", "gzip", "deflate", "identity", "c", "ch", "chunk", "chunkedx", "xchunked", "cchunked", "x-compress", "compress;q=1"};
+        std::string first = recase(rng, FIRST[rng.below(sizeof FIRST / sizeof *FIRST)]);
+        chunked_body();
+        HeaderSpec cl = H("Content-Length", strfmt("%d", (int) rng.range(0, 500)));
+        if (tname == "te_list_and_cl") { static const char *SEP[] = {", ", ",", " , ", ",\t"}; add.push_back(H("Transfer-Encoding", first + SEP[rng.below(4)] + recase(rng, "chunked"))); add.push_back(cl); }
+        else { add.push_back(H("Transfer-Encoding", first)); add.push_back(H("Transfer-Encoding", recase(rng, "chunked"))); add.push_back(cl); }
+        if (rng.coin()) std::swap(add.front(), add.back());   // Content-Length first or last (the two Transfer-Encoding lines keep their order when they are adjacent in add)
+        if (tname == "te_two_lines_and_cl" && add.size() == 3 && lower(add[0].name) != "content-length" && lower(add[2].name) != "content-length") std::swap(add[1], add[2]);
         must = FL_SMUGGLING; te_expect = 3;
     } else if (tname == "two_cl_same") { cl_body(); add.push_back(H("Content-Length", strfmt("%zu", body.size()))); add.push_back(H("Content-Length", strfmt("%zu", body.size()))); must = FL_SMUGGLING; }
     else if (tname == "two_cl_diff") { cl_body(); add.push_back(H("Content-Length", strfmt("%zu", body.size()))); add.push_back(H("Content-Length", strfmt("%zu", body.size() + 1 + (size_t) rng.below(9)))); must = FL_SMUGGLING; }
